@@ -172,6 +172,16 @@ theorem forward_gate_transitive (ps : List Scope) (cur cur' : Scope) (c : Cand) 
     (∀ dflts n out pl, (intoStaticUd cur' dflts n out pl).1.freqs = cur'.fwdReqs) :=
   ⟨useCand_inherits ps cur cur' c e r f h hr hf hunf, fun _ _ _ _ => rfl⟩
 
+/-- the gate on closed programs (the model runs): a forward function taken as a value, called, or used by a
+lambda before its definition is `MissingForwardImplementation`; after the definition it is allowed -/
+example : errOf (compileProgram 50 [.fwdD "g", .letD "h" (.ident "g")]) = some (.missingForward "g") := by decide
+example : errOf (compileProgram 50 [.fwdD "g", .letD "r" (.call (.ident "g") [.lit])]) = some (.missingForward "g") := by decide
+example : errOf (compileProgram 50 [.fwdD "g", .letD "k" (.lam (.mk [.mk "x" none] [] (.call (.ident "g") [.ident "x"])))])
+    = some (.missingForward "g") := by decide
+example : errOf (compileProgram 50 [.fwdD "a", .fwdD "b", .fnD "a" (.mk [.mk "x" none] [] (.call (.ident "b") [.ident "x"])),
+    .letD "r" (.call (.ident "a") [.lit])]) = some (.missingForward "b") := by decide
+example : errOf (compileProgram 50 [.fwdD "g", .fnD "g" (.mk [.mk "x" none] [] (.ident "x")), .letD "h" (.ident "g")]) = none := by decide
+
 /-- a lambda is gated where it is written -/
 theorem forward_gate_lambda (fuel : Nat) (ps : List Scope) (cur : Scope) (lf : CFunc) (out : XE × Scope)
     (h : compileExpr (fuel + 1) ps cur (.lamF lf) = .ok out) :
